@@ -274,11 +274,34 @@ pub fn main(tier: Tier, replay: Option<String>) -> i32 {
         jobs.push(job(DefSpace { label: "chardef/encoding-boundaries".into(), menu, max_lines: 2, probes }, Strategy::Dfs, Some(tier.pick(60, 1500)), b));
     }
     // shipped files: all scalars
-    for rel in ["resources/char.def", "sudachi/tests/resources/char.def", "python/tests/resources/char.def"] {
+    // ... and a generated file of a size and shape no hand-written one has: 600 single-point lines
+    // carrying every combination of up to ten classes (more than 256 distinct class sets), lines that
+    // name eight, nine and ten classes, in an order that is not sorted by code point
+    let generated = {
+        let names = ["KANJI", "ALPHA", "NUMERIC", "HIRAGANA", "KATAKANA", "GREEK", "CYRILLIC", "SYMBOL", "USER1", "USER2"];
+        let mut lines: Vec<String> = Vec::new();
+        for i in 1..=600u32 {
+            let bits = (i * 37) % 1024;
+            let cls: Vec<&str> = (0..10).filter(|b| bits & (1 << b) != 0).map(|b| names[b]).collect();
+            if cls.is_empty() {
+                continue;
+            }
+            lines.push(format!("0x{:04X} {}", 0x1000 + ((i * 7919) % 4000), cls.join(" ")));
+        }
+        lines.push(format!("0x3041..0x3096 {}", names[..8].join(" ")));
+        lines.push(format!("0x30A1..0x30FA {}", names[..9].join(" ")));
+        lines.push(format!("0x4E00..0x4E10 {}", names.join(" ")));
+        format!("DEFAULT 0 1 0\n{}\n", lines.join("\n"))
+    };
+    for rel in ["resources/char.def", "sudachi/tests/resources/char.def", "python/tests/resources/char.def", "(generated: 600 points, >256 class sets, 8-10 classes per line)"] {
         let path = repo_root().join(rel);
-        let text = match std::fs::read_to_string(&path) {
-            Ok(t) => t,
-            Err(_) => continue,
+        let text = if rel.starts_with('(') {
+            generated.clone()
+        } else {
+            match std::fs::read_to_string(&path) {
+                Ok(t) => t,
+                Err(_) => continue,
+            }
         };
         let chunks: Vec<u32> = (0..0x110000u32).step_by(4096).collect();
         let text2 = text.clone();
